@@ -176,6 +176,31 @@ def run_bounded(chk):
         ex[small] = (4 / 3 * math.pi * R_**3 * (1 - (qn[small] * R_)**2 / 10)) * np.exp(-1j * Q[small] @ np.asarray(c, float))
         compare(f"sphere:R={R_}", shape, Q, ex, 1.0, 4 / 3 * math.pi * R_**3, {"class": "Sphere", "radius": R_, "center": list(c)})
     seen = set()
+    # the same object: amplitudes read, then the shape is moved / resized through its public setters, then read again
+    from . import stale
+    Qh = np.array([[0.3, -0.2, 0.5], [2.0, 1.0, -1.5], [0.0, 0.0, 0.0], [1e-4, 0.0, 0.0]])
+
+    def amp(s):
+        return {"form_factor": np.asarray(s.compute_form_factor_amplitude(Qh.copy()))}
+    polys2 = corpus.polygons_2d()
+    subjects = [("Polygon:L", cox.shapes.Polygon([[float(x) + 1.0, float(y) - 2.0, 0.0] for x, y in polys2["L"]])),
+                ("ConvexPolyhedron:box", cox.shapes.ConvexPolyhedron(np.asarray(corpus.named_convex()["box"]) + np.array([1.0, -2.0, 0.5]))),
+                ("Sphere", cox.shapes.Sphere(1.3, (1.0, -2.0, 0.5)))]
+    for label, obj in subjects:
+        if not hasattr(obj, "vertices"):
+            # curved shape: compare with a fresh sphere after moving the centre and changing the radius
+            a0 = amp(obj)
+            obj.centroid = np.array([2.0, 0.5, -1.0])
+            obj.radius = 0.7
+            n_eval += 1
+            want = amp(cox.shapes.Sphere(0.7, (2.0, 0.5, -1.0)))
+            if not np.allclose(amp(obj)["form_factor"], want["form_factor"], rtol=1e-9, atol=1e-12):
+                fails.append((f"history:{label}", {"history": ["read", "centroid=(2,0.5,-1)", "radius=0.7", "read"],
+                                                   "observed": [complex(z) for z in amp(obj)["form_factor"]],
+                                                   "fresh_sphere": [complex(z) for z in want["form_factor"]]}))
+            continue
+        n_cases += 1
+        n_eval += stale.read_mutate_read(obj, amp, f"history:{label}", fails)
     for name, info in fails:
         key = name.split("/")[0] + "|" + ("exception" if "exception" in info else "shape" if "result_shape" in info else "value") + "|" + name.split("/")[-1][:5]
         if key in seen or len(seen) >= 8:
